@@ -66,6 +66,18 @@ def run_property(pid, seed, tier):
         from . import frontend
         rel = frontend.run_C12(seed, tier) if pid == 'C12' else frontend.run_C17(seed, tier)
         rel['rule'] = RULES.get(pid, '')
+        if pid == 'C12':
+            # behavioural side of "directives may come in any order / be repeated; every @check counts": the directive
+            # spellings of one grammar (shared pegdiff suite, family `spell`) must be the same parser
+            s = suite_mod.get_suite(seed, tier)
+            sp = relations.RELATIONS['C12s'](s)
+            rel['evaluations'] += sp['evaluations']
+            rel['nontrivial'] |= {('spell',) + tuple(k) for k in sp['nontrivial']}
+            rel['strict'] += sp['strict']
+            rel['prop'] += sp['prop']
+            rel['samples'] = rel['samples'][:3] + sp['samples'][:2]
+            rel['distribution']['directive spellings compared (parse results)'] = sp['evaluations']
+            rel['rule'] += ' + pegdiff family `spell`: each grammar in 4 directive spellings (shuffled, reversed, flags doubled; several @check per rule) on the same inputs'
         return rel
     if pid == 'C16':
         from . import routes
